@@ -422,6 +422,15 @@ func (c *Ctx) c01Pending() {
 		}
 		return
 	}
+	// one key per factor: a login parked by one second-factor module must not be
+	// completable by another module's code check
+	for _, k := range sortedKeysF(pend) {
+		pkgs := map[string]bool{}
+		for _, h := range pend[k] {
+			pkgs[pkgOf(h)] = true
+		}
+		r.Check(len(pkgs) == 1, "C01.pending-who", "session["+k+"]", "one factor per pending key", "-", "written by the hijack handler of "+strings.Join(sortedKeys(pkgs), ","), "the pending-login key "+k+" is shared by the second-factor modules "+strings.Join(sortedKeys(pkgs), ", ")+": a login parked for an account's TOTP factor can be completed at the SMS validate route (with a code sent to whoever holds the session) and vice versa")
+	}
 	for _, fn := range c.P.Funcs {
 		name := FuncName(fn)
 		for _, op := range c.StateOps(fn) {
